@@ -275,6 +275,7 @@ def ClipOK (lines cols : Int) (r : Rect) : Prop :=
     LINE/CHAR cells have one column, mask depths lie in `[-1, depth]`, `depth` counts the stack, every clip
     (current and saved) is empty or inside the buffer, and no `abort()` was reached. -/
 structure WF (rb : RB) : Prop where
+  size : 0 ≤ rb.lines ∧ 0 < rb.cols
   rows : ∀ l, 0 ≤ l → l < rb.lines → RowWF rb.cols (rb.cells l)
   maskLB : ∀ l c, -1 ≤ (rb.cell l c).maskdepth
   maskUB : ∀ l c, (rb.cell l c).maskdepth ≤ rb.depth
@@ -373,7 +374,8 @@ theorem WF.transfer {rb rb' : RB} (wf : WF rb) (haux : rb'.aux = rb.aux)
   have e3 : rb'.depth = rb.depth := congrArg Aux.depth haux
   have e4 : rb'.stack = rb.stack := congrArg Aux.stack haux
   have e5 : rb'.clip = rb.clip := congrArg Aux.clip haux
-  refine ⟨?_, ?_, ?_, ?_, ?_, ?_, ?_, ?_⟩
+  refine ⟨?_, ?_, ?_, ?_, ?_, ?_, ?_, ?_, ?_⟩
+  · rw [e1, e2]; exact wf.size
   · intro l a b; rw [e2]; exact hrows l a (by omega)
   · intro l c; rw [hmd]; exact wf.maskLB l c
   · intro l c; rw [hmd, e3]; exact wf.maskUB l c
